@@ -56,7 +56,7 @@ def ofRaw (w : Nat) (b : Bytes) : List Bytes :=
     let l := full ++ [b.drop (32 * q)]
     if l.length == w then l ++ [[]] else l
 
-def applyFault (store : List Bytes) (t : Tile) (d : Option (List Bytes)) (f : Fault) : Option (List Bytes) :=
+def applyFaultWith (tt : Tile → Option (List Bytes)) (t : Tile) (d : Option (List Bytes)) (f : Fault) : Option (List Bytes) :=
   match d with
   | none => none
   | some d =>
@@ -78,12 +78,41 @@ def applyFault (store : List Bytes) (t : Tile) (d : Option (List Bytes)) (f : Fa
     -- ragged length (bytes, not whole hashes); the generator puts these after the whole-hash kinds
     | "extb" => some (ofRaw t.w (d.flatten ++ (List.range f.a).map fun i => UInt8.ofNat (f.b + i)))
     | "truncb" => some (ofRaw t.w (d.flatten.take (d.flatten.length - f.a)))
-    | "repl" => trueTile store { t with l := f.a, n := f.b }
+    | "repl" => tt { t with l := f.a, n := f.b }
     | "miss" => none
     | _ => some d
 
+/-- the tile server over the true-tile function `tt` of a log -/
+def serveWith (tt : Tile → Option (List Bytes)) (fs : List Fault) (t : Tile) : Option (List Bytes) :=
+  (fs.filter fun f => f.l == t.l && f.n == t.n).foldl (applyFaultWith tt t) (tt t)
+
 def serve (store : List Bytes) (fs : List Fault) (t : Tile) : Option (List Bytes) :=
-  (fs.filter fun f => f.l == t.l && f.n == t.n).foldl (applyFault store t) (trueTile store t)
+  serveWith (trueTile store) fs t
+
+/-! UNIFORM logs (environment of `readuni`, as harness/cmd/corr/util_c10uni.go): every record is record 0 of the synthetic
+    log `seed`, so the stored hash at an index depends on its level only and the true tree hash and tiles of a tree of any
+    size are computable without a store. -/
+
+/-- `lv[l]` = hash of a complete subtree of `2^l` equal records, `l < 64` -/
+def uniLevels (seed : Nat) : List Bytes :=
+  let l0 := leafH (synthRecord seed 0)
+  ((List.range 63).foldl (fun (acc : List Bytes × Bytes) _ =>
+    let nx := nodeH acc.2 acc.2
+    (acc.1 ++ [nx], nx)) ([l0], l0)).1
+
+/-- RFC 6962 tree hash of `n` equal records: the complete subtrees of the binary expansion of `n`, combined from the right -/
+def uniTreeHash (lv : List Bytes) (n : Nat) : Bytes :=
+  (((List.range 63).filter fun b => n.testBit b).foldl (fun (acc : Option Bytes) b =>
+    match acc with
+    | none => some (lv.getD b [])
+    | some th => some (nodeH (lv.getD b []) th)) none).getD emptyH
+
+/-- the true tile `t` of the uniform log of `n` records, `none` if the log has no such tile -/
+def uniTile (lv : List Bytes) (n : Nat) (t : Tile) : Option (List Bytes) :=
+  if !t.data && 1 ≤ t.h && t.h ≤ 30 && t.l ≤ 62 && t.h * t.l ≤ 62 && 1 ≤ t.w && t.w ≤ 2 ^ t.h
+      && (t.n <<< t.h) + t.w ≤ n >>> (t.h * t.l) then
+    some (List.replicate t.w (lv.getD (t.h * t.l) []))
+  else none
 
 def digest (d : List Bytes) : String := (Sha256.sum256Hex d.flatten).take 16 |>.toString
 
@@ -135,6 +164,11 @@ def handle : Handler
         | .ok th =>
           let out := readHashes nodeH n th h idx (serve st fs)
           showHashes out.result ++ " saved=" ++ showSaved out.saved)
+  | "readuni", [n, h, idx, fs, seed] => do
+    let n ← n.toNat?; let h ← h.toNat?; let idx ← natList idx; let fs ← faults? fs; let seed ← seed.toNat?
+    let lv := uniLevels seed
+    let out := readHashes nodeH n (uniTreeHash lv n) h idx (serveWith (uniTile lv n) fs)
+    pure (showHashes out.result ++ " saved=" ++ showSaved out.saved)
   -- a history of calls through one reader value: the model's reader has no state, so every call is `readHashes`
   -- against the server of that call (the tile server may answer differently from call to call)
   | "readseq", n :: h :: seed :: cs => do
